@@ -440,6 +440,14 @@ SNDFILE*
 sf_open_fd	(int fd, int mode, SF_INFO *sfinfo, int close_desc)
 {	SF_PRIVATE 	*psf ;
 
+	if (sfinfo == NULL)
+	{	sf_errno = SFE_BAD_SF_INFO_PTR ;
+		if (close_desc)
+			close (fd) ;
+
+		return	NULL ;
+		} ;
+
 	if ((SF_CONTAINER (sfinfo->format)) == SF_FORMAT_SD2)
 	{	sf_errno = SFE_SD2_FD_DISALLOWED ;
 		if (close_desc)
@@ -471,6 +479,11 @@ sf_open_fd	(int fd, int mode, SF_INFO *sfinfo, int close_desc)
 SNDFILE*
 sf_open_virtual	(SF_VIRTUAL_IO *sfvirtual, int mode, SF_INFO *sfinfo, void *user_data)
 {	SF_PRIVATE 	*psf ;
+
+	if (sfinfo == NULL)
+	{	sf_errno = SFE_BAD_SF_INFO_PTR ;
+		return	NULL ;
+		} ;
 
 	/* Make sure we have a valid set of virtual pointers. */
 	if (sfvirtual->get_filelen == NULL)
